@@ -116,6 +116,13 @@ class DriverGen:
             c.append("    case %d: return mh::data_op(v.%s(), c);" % (i, d.name))
         c.append("    default: return \"ERRK\"; }")
         c.append("  if(c.op == \"esize\" || c.op == \"epos\") return mh::entry_info(v, c);")
+        c.append("#ifdef MSGDRV_CURSOR")
+        c.append("  if(c.op == \"cvisit\") switch(c.k) {")
+        for k, f in enumerate(nf):
+            if field_kind(s, f) == "C":
+                c.append("    case %d: return mh::comp_visit(v.%s(), c.arg.empty() ? -1 : std::atol(c.arg.c_str()));" % (k, f.name))
+        c.append("    default: return \"ERRK\"; }")
+        c.append("#endif")
         c.append("#ifdef MSGDRV_BYTAG")
         c.append("  if(c.op == \"getft\") switch(c.k) {")
         for k, f in enumerate(nf):
